@@ -357,6 +357,20 @@ def normOp : Op → Option Op
 /-- every register of the operation exists in the circuit -/
 def InRange (c : Circuit) (op : Op) : Prop := (∀ q ∈ op.qRegs, q.i < c.nOf q.t) ∧ (∀ r ∈ op.cRegs, r < c.nc)
 
+instance (c : Circuit) (op : Op) : Decidable (InRange c op) := by unfold InRange; infer_instance
+
+instance : DecidableEq (Except Err Circuit) := fun a b =>
+  match a, b with
+  | .ok x, .ok y => if h : x = y then isTrue (by rw [h]) else isFalse (by intro h'; injection h' with h''; exact h h'')
+  | .error x, .error y => if h : x = y then isTrue (by rw [h]) else isFalse (by intro h'; injection h' with h''; exact h h'')
+  | .ok _, .error _ => isFalse (by intro h; cases h)
+  | .error _, .ok _ => isFalse (by intro h; cases h)
+
+/-- a `OneQubitGateWrapper` object always has a non-empty `operations` list (its constructor raises otherwise) -/
+def wrapOK : Op → Bool
+  | .wrap [] _ => false
+  | _ => true
+
 theorem addReg_fold (n : Nat) (l : List Nat) (h : ∀ r ∈ l, r < n) : l.foldlM addRegIfAbsent n = .ok n := by
   induction l with
   | nil => rfl
@@ -912,24 +926,80 @@ theorem fromJsonOp_toJsonOp (op : Op) (hw : ∀ gs q, op = .wrap gs q → gs ≠
     simp at hnw'
     simp [toJsonOp, fromJsonOp, Op.cls, hn, hnw', hr, jsonShape_eq, Cls.shape, qregAt, cregAt, Op.qRegs, Op.cRegs]
 
-theorem fromJson_fold (l : List Op) (c : Circuit) (hr : ∀ op ∈ l, InRange c op) (hw : ∀ gs q, Op.wrap gs q ∈ l → gs ≠ []) :
+theorem fromJson_fold (l : List Op) (c : Circuit) (hr : ∀ op ∈ l, InRange c op) (hw : ∀ op ∈ l, wrapOK op = true) :
     (l.map toJsonOp).foldlM fromJsonStep c =
       .ok { c with ops := c.ops ++ l } := by
   induction l generalizing c with
   | nil => simp [pure, Except.pure]
   | cons op rest ih =>
-    have h1 := fromJsonOp_toJsonOp op (fun gs q h => hw gs q (by simp [h]))
+    have h1 := fromJsonOp_toJsonOp op (fun gs q h => by
+      have := hw op (by simp); subst h; cases gs with
+      | nil => simp [wrapOK] at this
+      | cons _ _ => simp)
     have h2 := add_inRange c op (hr op (by simp))
     simp only [List.map_cons, List.foldlM_cons, fromJsonStep, h1, h2, bind, Except.bind]
-    rw [ih _ (fun x hx => (inRange_ops c _ x).2 (hr x (by simp [hx]))) (fun gs q h => hw gs q (by simp [h]))]
+    rw [ih _ (fun x hx => (inRange_ops c _ x).2 (hr x (by simp [hx]))) (fun x hx => hw x (by simp [hx]))]
     simp
 
 /-- **JSON round trip**: `from_json(to_json(c))` has the same registers and exactly the operations of `sequence()` -/
 theorem fromJson_toJson (c : Circuit) (seq : List Op) (hr : ∀ op ∈ seq, InRange c op)
-    (hw : ∀ gs q, Op.wrap gs q ∈ seq → gs ≠ []) :
+    (hw : ∀ op ∈ seq, wrapOK op = true) :
     fromJson (toJson c seq) = .ok { ne := c.ne, np := c.np, nc := c.nc, ops := seq } := by
   unfold fromJson toJson
   have := fromJson_fold seq { np := c.np, ne := c.ne, nc := c.nc, ops := [] } (fun op h => hr op h) hw
   simpa using this
+
+/-! ## Part 5b: the round trip preserves the executed operation sequence -/
+
+theorem flat_append (a b : List Op) : flat (a ++ b) = flat a ++ flat b := by
+  simp [flat, List.flatMap_append]
+
+theorem flat_cons (op : Op) (l : List Op) : flat (op :: l) = flat [op] ++ flat l := by
+  rw [← flat_append]; rfl
+
+theorem flat_wrap (gs : List G1) (q : QReg) :
+    flat [.wrap gs q] = ((gs.filter (· != .I)).reverse).map fun g => Op.one g q := by
+  simp only [flat, List.flatMap_cons, List.flatMap_nil, List.append_nil, Op.unwrap]
+  rw [List.filter_map, ← List.filter_reverse]
+  congr 1
+  apply List.filter_congr
+  intro g _
+  cases g <;> rfl
+
+/-- an operation and its image under export∘import execute the same primitive operations -/
+theorem flat_normOp (op : Op) : flat (normOp op).toList = flat [op] := by
+  cases op with
+  | one g q =>
+    by_cases hg : g = .I
+    · subst hg; simp [normOp, flat, Op.unwrap, Op.isIdentity]
+    · simp [normOp, hg]
+  | wrap gs q =>
+    rw [flat_wrap]
+    simp only [normOp]
+    have hI : ∀ g ∈ gs.filter (· != .I), g ≠ .I := by
+      intro g hg; simpa using (List.mem_filter.1 hg).2
+    generalize gs.filter (· != .I) = gs' at hI
+    match gs', hI with
+    | [], _ => simp [normWrap, flat]
+    | [g], hI =>
+      have : g ≠ .I := hI g (by simp)
+      simp only [normWrap, Option.toList_some, List.reverse_cons, List.reverse_nil, List.nil_append, List.map_cons, List.map_nil]
+      cases g <;> first | rfl | exact absurd rfl this
+    | g1 :: g2 :: rest, hI =>
+      simp only [normWrap, Option.toList_some]
+      rw [flat_wrap]
+      congr 2
+      rw [List.filter_eq_self]
+      intro g hg; simpa using hI g hg
+  | ctrl g a b => rfl
+  | cctrl g a b c => rfl
+  | meas q c => rfl
+
+theorem flat_filterMap_normOp (seq : List Op) : flat (seq.filterMap normOp) = flat seq := by
+  induction seq with
+  | nil => rfl
+  | cons op rest ih =>
+    rw [flat_cons op rest, ← flat_normOp op, ← ih, ← flat_append]
+    cases h : normOp op <;> simp [h]
 
 end Graphiq.Export
